@@ -146,6 +146,20 @@ def gen(rng, idx, tier):
         ts = sorted((i, o["t"]) for i, o in enumerate(body) if o["op"] == "clock")
         for k, (i, _) in enumerate(ts):
             body[i]["t"] = sorted(x[1] for x in ts)[k]
+        if rng.random() < 0.3:
+            # ... and is set back (time synchronisation) before the probes
+            body.append({"op": "clock", "t": max(0.0, ts[-1][1] - rng.choice([1.0, 5.0, 100.0, 3600.0]))})
+    if rng.random() < 0.3:
+        # gateway time stamps that do not run forward (a log replayed, two logs merged, midnight, a gateway whose clock
+        # was set): what a text line carries as its time must not decide what later inputs decode to
+        for o in body:
+            if o["op"] == "feed" and not o.get("probe") and rng.random() < 0.5:
+                fmt_ = fmts[o["d"]] if o["d"] < len(fmts) else "plain"
+                if fmt_ == "yd":
+                    o["ts"] = "%02d:%02d:%02d.%03d" % (rng.choice([0, 0, 12, 23]), rng.randrange(60), rng.randrange(60), rng.randrange(1000))
+                elif fmt_ == "plain":
+                    o["ts"] = "%04d-%02d-%02d-%02d:%02d:%02d.%03d" % (rng.choice([2019, 2022, 2022, 2031]), rng.randrange(1, 13), rng.randrange(1, 28),
+                                                                      rng.randrange(24), rng.randrange(60), rng.randrange(60), rng.randrange(1000))
     if rng.random() < 0.05:
         # a long history of fast-packet messages that never finish, from many different sources
         dj = rng.randrange(nd)
@@ -200,6 +214,15 @@ def _junk(rng, d, free_src):
         return {"op": "raw", "d": d, "entry": rng.choice(["yd", "actisense", "plain"]),
                 "text": rng.choice(["", "garbage", "00:00:00.000 R ZZZZ 00", "A000001.000 XYZ", "A1.2 3 4", "x,y,z", "2022-09-28-11:36:59.668,3,abc,1,255,8,00",
                                     "00:00:00.000 X 15F11910 00 11", "A000123.456 01FF3 1F112 0G"]), "junk": "text"}
+    if k < 0.93:
+        # a whole (pre-assembled) message whose payload is out of range, through a text entry point - whatever format
+        # this decoder otherwise receives: a log line pasted in, a second gateway
+        pgn = rng.choice([127250, 127257, 128267, 129029, 129029, 126996, 129540])
+        n = 8 if pgn in (127250, 127257, 128267) else rng.choice([43, 47, 134, 30])
+        payload = bytes([rng.choice([0xFD, 0xFE])]) * n
+        if rng.random() < 0.5:
+            return {"op": "raw", "d": d, "entry": "actisense", "text": n2k.actisense_line(pgn, src, 255, 3, payload), "junk": "range_whole"}
+        return {"op": "raw", "d": d, "entry": "plain_combined", "text": n2k.plain_line(pgn, src, 255, 3, payload), "junk": "range_whole"}
     b = bytearray(n2k.wire_usb(n2k.can_id(rng.choice([127250, 129029]), src, 255, 2), traffic.rbytes(rng, 8)))
     b[rng.randrange(2, 20)] ^= rng.randrange(1, 256)
     return {"op": "raw", "d": d, "entry": "usb", "hex": bytes(b).hex(), "junk": "checksum"}
@@ -280,7 +303,7 @@ def _run_ops_inner(ops, only_dec, skip_junk, vc, shared, before, decs, fm, encs,
         elif o["op"] == "feed":
             d = decs.get(o["d"])
             if d is not None:
-                r = _res(*bus.feed_frame(d, fm[o["d"]], o["f"]))
+                r = _res(*bus.feed_frame(d, fm[o["d"]], o["f"], o.get("ts")))
         elif o["op"] == "close_dec":
             d = decs.get(o["d"])
             if d is not None:
@@ -303,6 +326,8 @@ def _run_ops_inner(ops, only_dec, skip_junk, vc, shared, before, decs, fm, encs,
                         m = d.decode_actisense_string(o["text"])
                     elif o["entry"] == "plain":
                         m = d.decode_basic_string(o["text"])
+                    elif o["entry"] == "plain_combined":
+                        m = d.decode_basic_string(o["text"], True)
                     else:
                         m = d.decode_usb(bytes.fromhex(o["hex"]))
                     r = _res(m, None)
